@@ -137,6 +137,69 @@ class EngineModel:
                 out.append(n)
         return out
 
+
+    # ---- commit / add summaries (so that extracting "add + commit" into a helper does not blind the ordering rules)
+    def _is_session_call(self, c, name):
+        return isinstance(c, ast.Call) and isinstance(c.func, ast.Attribute) and c.func.attr == name and is_self_attr(c.func.value, '_data_session')
+
+    def always_commits(self, mname, seen=()):
+        """Every normal path through method mname passes a commit (directly or through a helper that always commits)."""
+        if mname in seen or mname not in self.methods:
+            return False
+        from .cfg import CFG, calls_at
+        g = CFG(self.methods[mname])
+        nodes = self.commit_nodes(g, seen + (mname,))
+        return bool(nodes) and g.all_paths_pass(g.entry, g.exit, nodes)
+
+    def commit_nodes(self, g, seen=()):
+        from .cfg import calls_at
+        out = []
+        for n in g.nodes:
+            for c in calls_at(n):
+                if self._is_session_call(c, 'commit'):
+                    out.append(n)
+                elif is_self_attr(c.func) and c.func.attr in self.methods and c.func.attr not in (CHOKE, LISTER) and self.always_commits(c.func.attr, seen):
+                    out.append(n)
+        return out
+
+    def adding_params(self, mname, seen=()):
+        """Parameter names of method mname that it passes to session.add (directly or via helpers)."""
+        if mname in seen or mname not in self.methods:
+            return set()
+        fn = self.methods[mname]
+        ps = [a.arg for a in fn.args.args][1:]
+        out = set()
+        for c in walk_local(fn):
+            if self._is_session_call(c, 'add') and c.args and isinstance(c.args[0], ast.Name) and c.args[0].id in ps:
+                out.add(c.args[0].id)
+            elif isinstance(c, ast.Call) and is_self_attr(c.func) and c.func.attr in self.methods:
+                sub = self.adding_params(c.func.attr, seen + (mname,))
+                callee = self.methods[c.func.attr]
+                cps = [a.arg for a in callee.args.args][1:]
+                for p_, a in zip(cps, c.args):
+                    if p_ in sub and isinstance(a, ast.Name) and a.id in ps:
+                        out.add(a.id)
+        return out
+
+    def add_nodes(self, g, var):
+        """CFG nodes at which local variable `var` is handed to session.add (directly or via an adding helper)."""
+        from .cfg import calls_at
+        out = []
+        for n in g.nodes:
+            for c in calls_at(n):
+                if self._is_session_call(c, 'add') and c.args and isinstance(c.args[0], ast.Name) and c.args[0].id == var:
+                    out.append(n)
+                elif is_self_attr(c.func) and c.func.attr in self.methods:
+                    ap = self.adding_params(c.func.attr)
+                    cps = [a.arg for a in self.methods[c.func.attr].args.args][1:]
+                    for p_, a in zip(cps, c.args):
+                        if p_ in ap and isinstance(a, ast.Name) and a.id == var:
+                            out.append(n)
+                    for k in c.keywords:
+                        if k.arg in ap and isinstance(k.value, ast.Name) and k.value.id == var:
+                            out.append(n)
+        return out
+
     def version_gate(self, fn):
         for name, call in decorator_names(fn):
             if name == '_kmip_version_supported' and call is not None and call.args:
